@@ -383,7 +383,8 @@ impl AsnDefWriter {
                 );
 
                 let virtual_field_name = Self::vec_virtual_field_name(field.name());
-                let constraint_type_name = Self::constraint_type_name(name, &virtual_field_name);
+                let constraint_type_name =
+                    Self::virtual_constraint_type_name(constraint_type_name, "Values");
                 Self::write_constraint_type_decl(scope, &constraint_type_name);
 
                 self.write_field_constraint(
@@ -423,7 +424,8 @@ impl AsnDefWriter {
                 Self::write_default_constraint(scope, constraint_type_name, inner, default);
 
                 let virtual_field_name = Self::default_virtual_field_name(field.name());
-                let constraint_type_name = Self::constraint_type_name(name, &virtual_field_name);
+                let constraint_type_name =
+                    Self::virtual_constraint_type_name(constraint_type_name, "Value");
                 Self::write_constraint_type_decl(scope, &constraint_type_name);
 
                 self.write_field_constraint(
@@ -712,6 +714,18 @@ impl AsnDefWriter {
     fn constraint_type_name(name: &str, field: &str) -> String {
         let combined = Self::combined_field_type_name(name, field) + "Constraint";
         Self::constraint_impl_name(&combined)
+    }
+
+    /// The name [`Self::type_declaration`] refers to for the element / value of a field: the
+    /// suffix is appended to the already mapped name (`self` is mapped to `Self_`)
+    fn virtual_constraint_type_name(constraint_type_name: &str, suffix: &str) -> String {
+        format!(
+            "{}{}Constraint",
+            constraint_type_name
+                .strip_suffix("Constraint")
+                .unwrap_or(constraint_type_name),
+            suffix
+        )
     }
 
     fn write_constraint_type_decl(scope: &mut Scope, constraint_type_name: &str) {
